@@ -12,7 +12,7 @@ CONSTANTS
   TextLens <- L_5
   DataLens <- L_no
   MediaLens <- L_7
-  SseCounts <- S_no
+  SseScripts <- S_no
   PresetCLs <- CL_3
 INVARIANT ExactlyOneStart
 INVARIANT OnlyLastHasNoMoreBody
